@@ -7,6 +7,7 @@ Observation checker for C08 (on the implementation only): the sequence number st
 written data frame follows 0 until the first matching ACK, then n -> n % 3 + 1, changes exactly on
 `ACK(current)`, is reset by close; every stamped header has a valid CRC8 and flags = original | seq<<2.
 """
+import priv
 import streams
 import vloop
 from common import hx
@@ -64,7 +65,7 @@ def run_history(ctx, r, evs):
             if r.random() < 0.35:
                 w.loop.nudge(r.choice([0.2, 0.5, 0.8]))      # virtual time passes between events (no timer fires)
             m = w.mark()
-            before = w.p._pack_seq
+            before = priv.pack_seq(w.p)
             if kind == "send":
                 f, tok, fl = make_frame(r, arg)
                 sent_flags[arg] = fl
@@ -72,7 +73,7 @@ def run_history(ctx, r, evs):
                 w.start_send(arg, f)
                 label = "send"
             elif kind in ("ack", "ackn"):
-                k = w.p._pack_seq if kind == "ack" else arg
+                k = priv.pack_seq(w.p) if kind == "ack" else arg
                 b = streams.ack(k)
                 tokens.append("R:" + hx(b))
                 w.rx(b)
@@ -111,9 +112,9 @@ def run_history(ctx, r, evs):
             entries = [e for e in w.since(m) if e != "CLOSE"]
             steps.append(vloop.canon_step(entries))
             writes = [bytes.fromhex(e[1:]) for e in entries if e.startswith("W")]
-            obs.append((label, before, w.p._pack_seq, [x for x in writes if not x[5] & 1]))
+            obs.append((label, before, priv.pack_seq(w.p), [x for x in writes if not x[5] & 1]))
             run_history.times.append(w.loop.time())
-        final_seq = w.p._pack_seq
+        final_seq = priv.pack_seq(w.p)
     finally:
         w.shutdown()
     return tokens, steps, obs, final_seq, sent_flags
